@@ -96,9 +96,10 @@ class M(Model):
             out.append(("step_count not incremented", f"{int(s.step_count)} -> {int(s2.step_count)}"))
         done_before = self._on_target(s) == NBOX
         if not done_before:
-            want_last = int(s.step_count) + 1 >= self.T
-            if (int(ts2.step_type) == 2) != want_last:
-                out.append(("illegal action changed the course of the episode",
+            # "the episode continues": the ignored move must not end the episode by itself (LAST exactly at the
+            # time limit is C11's business and is not asserted here)
+            if int(ts2.step_type) == 2 and int(s.step_count) + 1 < self.T:
+                out.append(("illegal action ended the episode",
                             f"step_type={int(ts2.step_type)} step_count={int(s2.step_count)} time_limit={self.T}"))
             want = self._step_reward(self._on_target(s), self._on_target(s), False)
             if want is not None and abs(float(ts2.reward) - want) > 1e-5:
@@ -134,16 +135,8 @@ class M(Model):
         if prev is not None:
             if not np.array_equal(np.asarray(prev.fixed_grid), fixed):
                 out.append(("fixed_grid changed", ""))
-            if int(s.step_count) != int(prev.step_count) + 1:
-                out.append(("step_count not incremented", f"{int(prev.step_count)} -> {int(s.step_count)}"))
-            pr, pc = self._agent(prev)
-            if abs(pr - r) + abs(pc - c) > 1:
-                out.append(("agent moved more than one cell", f"({pr},{pc}) -> ({r},{c})"))
-            pv = np.asarray(prev.variable_grid)
-            if pv.shape == var.shape:
-                moved = int(((pv == BOX) & (var != BOX)).sum())
-                if moved > 1:
-                    out.append(("more than one box moved in one step", f"{moved} boxes left their cell"))
+            # (step_count, "one cell per step" and "one box per push" are transition rules - C09 -, each state
+            # they produce is still a possible configuration: not asserted under C07)
         return out
 
     # ------------------------------------------------------------------ C08 (supplementary)
@@ -209,10 +202,7 @@ class M(Model):
         inwall = (fixed == WALL) & (var != EMPTY)
         if inwall.any():
             out.append(("agent or box starts inside a wall", f"cells {np.argwhere(inwall)[:3].tolist()}"))
-        if int(s0.step_count) != 0:
-            out.append(("initial step_count != 0", str(int(s0.step_count))))
-        if self._on_target(s0) == NBOX:
-            out.append(("level is already solved at reset", ""))
+        # (step_count is not an instance invariant; "not already solved" is advertised by no generator)
         return out
 
     # ------------------------------------------------------------------ C12
